@@ -179,33 +179,33 @@ func negotiateContentType(header http.Header, offers []string, defaultOffer stri
 	bestWild := 3
 	specs := parseAccept(header["Accept"])
 	for _, offer := range offers {
+		// The most specific media range matching the offer decides its
+		// quality (RFC 7231 5.3.2): "type/subtype;q=0" excludes the offer
+		// even when a wildcard range matches it too.
+		offerQ, offerWild := -1.0, 3
 		for _, spec := range specs {
+			wild := 3
 			switch {
-			case spec.Q == 0.0:
-				// ignore
-			case spec.Q < bestQ:
-				// better match found
 			case spec.Value == "*/*":
-				if spec.Q > bestQ || bestWild > 2 {
-					bestQ = spec.Q
-					bestWild = 2
-					bestOffer = offer
-				}
+				wild = 2
 			case strings.HasSuffix(spec.Value, "/*"):
-				if strings.HasPrefix(offer, spec.Value[:len(spec.Value)-1]) &&
-					(spec.Q > bestQ || bestWild > 1) {
-					bestQ = spec.Q
-					bestWild = 1
-					bestOffer = offer
+				if strings.HasPrefix(offer, spec.Value[:len(spec.Value)-1]) {
+					wild = 1
 				}
 			default:
-				if spec.Value == offer &&
-					(spec.Q > bestQ || bestWild > 0) {
-					bestQ = spec.Q
-					bestWild = 0
-					bestOffer = offer
+				if spec.Value == offer {
+					wild = 0
 				}
 			}
+			if wild < offerWild || (wild < 3 && wild == offerWild && spec.Q > offerQ) {
+				offerQ, offerWild = spec.Q, wild
+			}
+		}
+		if offerWild == 3 || offerQ == 0.0 {
+			continue // not matched, or not acceptable
+		}
+		if offerQ > bestQ || (offerQ == bestQ && offerWild < bestWild) {
+			bestQ, bestWild, bestOffer = offerQ, offerWild, offer
 		}
 	}
 	return bestOffer
